@@ -20,8 +20,11 @@ fn layout(attrs: &[String], salt: &str, indent: &str) -> String {
         rng.shuffle(&mut a);
     }
     let mut out = String::new();
-    // attributes of other tools may sit between deserr's
+    // attributes of other tools may sit before and between deserr's
     let noise = rng.chance(1, 3);
+    if rng.chance(1, 4) {
+        let _ = writeln!(out, "{indent}#[rustfmt::skip]");
+    }
     match rng.below(4) {
         0 | 1 => {
             let _ = writeln!(out, "{indent}#[deserr({})]", a.join(", "));
@@ -31,6 +34,7 @@ fn layout(attrs: &[String], salt: &str, indent: &str) -> String {
                 let _ = writeln!(out, "{indent}#[deserr({x})]");
                 if noise {
                     let _ = writeln!(out, "{indent}#[doc = \"between\"]");
+                    let _ = writeln!(out, "{indent}#[rustfmt::skip]");
                 }
             }
         }
